@@ -3,7 +3,8 @@ samples follow the stated distribution.
 
 Proof:  Props/C16.lean (exact arithmetic) over definitions REGENERATED on every run (tools/gen_rngdist.py, tools/c2lean_dist.py):
         the integer / index logic of cmb_random, uniform, triangular, dice, bernoulli, binomial, sums_to_one, loaded_dice,
-        alias_secure, alias_create (Vose), alias_sample, geometric, std_beta, PERT_mod from clang's AST; the ziggurat tables from
+        alias_secure, alias_create (Vose), alias_sample, geometric, std_beta, PERT_mod and the leading statements (small-shape
+        guard with early return) of std_gamma from clang's AST; the ziggurat tables from
         the include files the codegen programs of the current tree wrote into the build; hand model Rng/Zig.lean of the
         exponential ziggurat.
 Ties:   T-gen   the definitions above (AST hashes in the evidence), emitted twice from ONE text: DistQ (Rat) / DistF (Float)
@@ -37,6 +38,7 @@ import vlib
 
 CORPUS = os.path.join(vlib.VERIF, "corpus", "rngdist")
 DRIVERS = ["distmain"]
+GAMMA_DRIVER = "gammamain"
 TRUSTED = [
     "Lean 4.33 kernel; axioms propext, Classical.choice, Quot.sound only (audited per theorem on every run)",
     "tools/c2lean_dist.py + tools/gen_rngdist.py + clang's JSON AST (translation of the samplers' integer / index logic, the "
@@ -47,7 +49,7 @@ TRUSTED = [
     "pointer arithmetic); tied by bit-exact execution of its Float instantiation against the library over the regenerated tables",
     "IEEE-754 rounding is NOT in the theorems: `double` is modelled as Rat (exact); int->double conversions are exact in the model "
     "(true below 2^53); out-of-range double->integer conversions (undefined in C) are modelled as wrap-around; where exact and IEEE "
-    "results can differ is measured by the DistQ-vs-library comparison and, for cmb_random_dice with offsets >= 2^31, recorded as a finding",
+    "results can differ is measured by the DistQ-vs-library comparison (cmb_random_dice with offsets >= 2^31 was such a case: found by the test tier, since repaired)",
     "log, sqrt, exp, pow: abstract functions with the stated hypotheses (SqrtLike; none needed for log after the repair)",
     "the normal / gamma / beta / Poisson ... sampler BODIES are not modelled: for them only the tables (nor_tables_ok), the algebraic "
     "wrappers (std_beta_range, PERT_mod_range) and the statistical tier apply",
@@ -281,6 +283,29 @@ def judge_script(c_exe, lines, exact):
     return None, stats
 
 
+def judge_gboost(c_exe, lines):
+    """the regenerated small-shape guard of cmb_random_std_gamma against the library: for `gboost <seed> <shape>` the library
+    returns r = std_gamma(shape) after the seed and, after the same seed, g = std_gamma(shape + 1) and the next cmb_random() u;
+    the IEEE instantiation of the regenerated leading statements, fed with g and u, must return r bit for bit (this also
+    pins the ORDER of the two draws)."""
+    rc, co, ce = vlib.run_driver(c_exe, "\n".join(lines) + "\n", args=["corr"], timeout=600)
+    outs = [l.split() for l in co.splitlines() if l.startswith("gboost ")]
+    if rc != 0 or len(outs) != len(lines):
+        return "library driver exit code %d, %d of %d results: %s" % (rc, len(outs), len(lines), ce.strip()[-300:])
+    q = ["gboost %s %s %s" % (l.split()[2], o[2], o[3]) for l, o in zip(lines, outs)]
+    rc2, lo, le = vlib.run_driver(vlib.lean_exe(GAMMA_DRIVER), "\n".join(q) + "\n", timeout=600)
+    mo = [l.split() for l in lo.splitlines() if l.startswith("gboost ")]
+    if rc2 != 0 or len(mo) != len(lines):
+        return "model driver exit code %d, %d of %d results: %s" % (rc2, len(mo), len(lines), le.strip()[-300:])
+    for l, o, m in zip(lines, outs, mo):
+        if o[1] != m[1] or m[2] != "draws=1":
+            return ("cmb_random_std_gamma(%r) after seed %s: library %s (%r); regenerated guard fed with the library's "
+                    "std_gamma(shape + 1) = %r and the next uniform %s / 2^53: %s (%r), %s" % (
+                        bits_to_float(l.split()[2]), l.split()[1], o[1], bits_to_float(o[1]), bits_to_float(o[2]), o[3],
+                        m[1], bits_to_float(m[1]), m[2]))
+    return None
+
+
 # ---- the generated tables against the curve they are meant to lie on (deterministic numerical check, not proof) -------------
 
 def check_tables(impl):
@@ -320,7 +345,8 @@ def run(chk):
     chk.assumptions += [
         "parameters inside the documented domains (the release asserts of cmb_random.c / cmb_random.h, collected per function in the evidence)",
         "n < 2^32 (the type of n), |a|, |b| <= 2^61 for cmb_random_dice; exact-arithmetic model of double (see trusted base)",
-        "away from the triggers of the listed known findings (std_gamma / std_beta / beta with a shape below 1; dice with offsets >= 2^31)",
+        "no known finding is listed for C16 at present (the former triggers — std_gamma / std_beta / beta with a shape below 1, dice with "
+        "offsets >= 2^31 — are part of the grid)",
         "events of probability about 2^-53 per draw are not observable by the test tier: cmb_random() = 0 makes cmb_random_pareto "
         "return +inf and cmb_random_logistic return -inf (unit_uniform_range proves that 0 is attainable)"]
     chk.notes.append("samples-follow-the-distribution part: STATISTICAL TEST EVIDENCE, NOT PROOF (seeded large-sample tests on the real "
@@ -338,12 +364,16 @@ def run(chk):
         chk.tgen_error = str(ex)
         chk.log("translator cannot handle the current source: %s" % ex)
     # ---- proofs ------------------------------------------------------------------------------------------
-    proved = tgen_ok and chk.prove(extra_targets=DRIVERS)
-    drivers_ok = proved
+    proved = tgen_ok and chk.prove(extra_targets=DRIVERS + [GAMMA_DRIVER])
+    drivers_ok = gamma_ok = proved
     if tgen_ok and not proved:
         drivers_ok, out = vlib.lake_build(DRIVERS)
         if not drivers_ok:
             chk.log("model driver does not build:\n" + "\n".join(l for l in out.splitlines() if "error" in l)[:2000])
+        gamma_ok, out = vlib.lake_build([GAMMA_DRIVER])
+        if not gamma_ok:
+            chk.log("the driver for the regenerated guard of cmb_random_std_gamma does not build against the current source "
+                    "(the function has another shape than `guard with early return; rest`)")
     c_exe = vlib.cc_harness("distdrv", impl)
     r = random.Random(chk.seed * 1000003 + 16)
     evals, sigs, samples = 0, set(), []
@@ -416,6 +446,20 @@ def run(chk):
                 validated += 1
         samples.append({"kind": "corr", "script": scripts[0][0][:4]})
         chk.cov["correspondence"] = dict(corr_stats)
+
+    # ---- T-corr: the regenerated small-shape guard of cmb_random_std_gamma -----------------------------------------
+    if gamma_ok:
+        shapes = [2.0 ** -20, 0.05, 0.2, 1.0 / 3.0, 0.4, 0.5, 0.999999] + [r.random() for _ in range(8 if quick else 60)]
+        gl = ["gboost %d %s" % (r.choice([1, 2, r.getrandbits(64)]) if i % 3 else r.randrange(1000), hx(sh))
+              for sh in shapes for i in range(6 if quick else 40)]
+        msg = judge_gboost(c_exe, gl)
+        evals += len(gl)
+        dist["corr-op:gboost"] += len(gl)
+        sigs.add(hashlib.sha256("\n".join(gl).encode()).hexdigest()[:16])
+        if msg:
+            failures.append(("corr", msg, "#! kind=gboost\n# %s\n%s\n" % (msg, "\n".join(gl))))
+        else:
+            validated += 1
 
     # ---- support scan over the boundary grid (exact check, seeded) ----------------------------------------------------
     grid = distgrid.grid()
@@ -545,6 +589,22 @@ def replay(chk, path):
             chk.violation("replay: `%s`: %s" % bad[0], "#! kind=support\n%s\n" % bad[0][0], True)
         else:
             chk.log("replay: every value inside the support (%d command(s))" % len(lines))
+        return
+    if kind == "gboost":
+        try:
+            gen_rngdist.run(impl)
+        except c2lean.Untranslatable as ex:
+            chk.violation("replay needs the model, which cannot be regenerated: %s" % ex, text, False)
+            return
+        ok, out = vlib.lake_build([GAMMA_DRIVER])
+        if not ok:
+            chk.violation("replay needs the driver for the guard of cmb_random_std_gamma, which does not build against this source", text, False)
+            return
+        msg = judge_gboost(c_exe, lines)
+        if msg:
+            chk.violation("replay: " + msg, text, False)
+        else:
+            chk.log("replay: library and regenerated guard agree on %d cases" % len(lines))
         return
     if kind == "tables":
         msgs = check_tables(impl)
